@@ -1863,3 +1863,475 @@ Proof.
   - intros h Dh. destruct (run_leak drop_ring_fixed h drop_ring_fixed_shape es s (or_introl Ring)) as [NL|C]; [|exact C].
     exfalso. exact (A7 h Dh NL).
 Qed.
+
+(** * Every population starts in a state satisfying the invariant *)
+Definition pop_ok (pp : population) : Prop :=
+  Forall (fun x : option nat * ist => match fst x with Some h => h < pp_fds pp | None => True end) (pp_ops pp) /\
+  Forall (fun p => p < pp_pools pp) (pp_bufs pp).
+
+Lemma count_if_repeat_true n : count_if id (repeat true n) = n.
+Proof. induction n as [|n IH]; [reflexivity|]. cbn [repeat]. rewrite count_if_cons, IH. reflexivity. Qed.
+
+Lemma count_if_map {A B} (P : B -> bool) (f : A -> B) l : count_if P (map f l) = count_if (fun x => P (f x)) l.
+Proof. induction l as [|x l IH]; [reflexivity|]. cbn [map]. rewrite !count_if_cons, IH. reflexivity. Qed.
+
+Lemma count_if_ext {A} (P Q : A -> bool) l : (forall x, P x = Q x) -> count_if P l = count_if Q l.
+Proof. intros H. induction l as [|x l IH]; [reflexivity|]. rewrite !count_if_cons, IH, H. reflexivity. Qed.
+
+Lemma count_if_all {A} (P : A -> bool) l : (forall x, P x = true) -> count_if P l = length l.
+Proof. intros H. induction l as [|x l IH]; [reflexivity|]. rewrite count_if_cons, IH, H. reflexivity. Qed.
+
+Lemma nth_map_lt {A B} (f : A -> B) l i d d0 : i < length l -> nth i (map f l) d = f (nth i l d0).
+Proof. intros H. rewrite (nth_indep _ d (f d0)) by (rewrite map_length; exact H). apply map_nth. Qed.
+
+Lemma nth_repeat_true n i : nth i (repeat true n) false = (i <? n).
+Proof.
+  revert i; induction n as [|n IH]; intros [|i]; cbn [repeat nth]; auto.
+  rewrite IH. reflexivity.
+Qed.
+
+Lemma count_in_indices {A} (f : A -> bool) d : f d = false ->
+  forall l i o, count_in o (indices_where f l i) = if i <=? o then b2n (f (nth (o - i) l d)) else 0.
+Proof.
+  intros Hd. induction l as [|x l IH]; intros i o; cbn [indices_where].
+  - destruct (o - i); cbn; rewrite Hd; destruct (i <=? o); reflexivity.
+  - assert (count_in o (indices_where f l (S i)) = if S i <=? o then b2n (f (nth (o - S i) l d)) else 0) as E by apply IH.
+    destruct (Nat.leb_spec i o) as [Hle|Hgt].
+    + destruct (Nat.eqb_spec i o) as [<-|Hne].
+      * rewrite Nat.sub_diag. cbn [nth]. destruct (Nat.leb_spec (S i) i); [lia|].
+        destruct (f x); [unfold count_in; rewrite count_if_cons; fold (count_in i (indices_where f l (S i)));
+                         rewrite E, Nat.eqb_refl; reflexivity|rewrite E; reflexivity].
+      * destruct (Nat.leb_spec (S i) o); [|lia].
+        replace (o - i) with (S (o - S i)) by lia. cbn [nth].
+        destruct (f x); [unfold count_in; rewrite count_if_cons; fold (count_in o (indices_where f l (S i)));
+                         rewrite E; destruct (Nat.eqb_spec i o); [congruence|reflexivity]|exact E].
+    + destruct (Nat.leb_spec (S i) o); [lia|].
+      destruct (f x); [unfold count_in; rewrite count_if_cons; fold (count_in o (indices_where f l (S i)));
+                       rewrite E; destruct (Nat.eqb_spec i o); [lia|reflexivity]|exact E].
+Qed.
+
+Lemma count_sop_map o l : count_sop o (map SOp l) = count_in o l.
+Proof. unfold count_sop, count_in. rewrite count_if_map. reflexivity. Qed.
+
+Lemma count_close_map_sop h l : count_close h (map SOp l) = 0.
+Proof. unfold count_close. rewrite count_if_map. apply count_if_none with (d := 0). reflexivity. Qed.
+
+Lemma init_wf pp : pop_ok pp -> wf (init pp).
+Proof.
+  intros [Hops Hbufs]. set (d0 := (@None nat, INotStarted)).
+  set (mk := fun x : option nat * ist => {| o_on := fst x; o_fut := true; o_st := st_of (snd x); o_box := true |}).
+  assert (forall o, get_op (init pp) o = if o <? length (pp_ops pp) then mk (nth o (pp_ops pp) d0) else dead_op) as G.
+  { intros o. unfold get_op, init. cbn [s_ops]. destruct (Nat.ltb_spec o (length (pp_ops pp))).
+    - apply nth_map_lt. assumption.
+    - apply nth_overflow. rewrite map_length. assumption. }
+  split.
+  - unfold init, holders. cbn [s_rc s_ring s_clones s_fds s_ops s_pools b2n].
+    rewrite !count_if_repeat_true, !count_if_map.
+    rewrite (count_if_ext _ owns_sq) by (intros [[h|] i]; reflexivity).
+    rewrite (count_if_all (fun x => 0 <? p_rc _)) by reflexivity. rewrite seq_length. unfold count_if. lia.
+  - constructor.
+    + intros p. unfold pool_refs, get_pool, init. cbn [s_pools s_bufs].
+      rewrite count_if_map. cbn [fst snd]. rewrite (count_if_ext _ (fun q => q =? p)) by (intros q; apply andb_true_r).
+      destruct (Nat.ltb_spec p (pp_pools pp)) as [Hlt|Hge].
+      * rewrite (nth_map_lt _ _ _ _ 0) by (rewrite seq_length; exact Hlt). rewrite seq_nth by exact Hlt. cbn [p_rc p_handle b2n Nat.add].
+        unfold count_nat, count_if. f_equal. f_equal. apply filter_ext. intros q. apply Nat.eqb_sym.
+      * rewrite nth_overflow by (rewrite map_length, seq_length; exact Hge). cbn [p_rc p_handle dead_pool b2n Nat.add].
+        symmetry. apply count_if_none with (d := S p). intros i.
+        destruct (Nat.lt_ge_cases i (length (pp_bufs pp))) as [Hi|Hi].
+        -- rewrite Forall_forall in Hbufs. specialize (Hbufs (nth i (pp_bufs pp) (S p)) (nth_In _ _ Hi)).
+           cbn beta in Hbufs. apply Nat.eqb_neq. clear - Hbufs Hge. lia.
+        -- rewrite nth_overflow by exact Hi. apply Nat.eqb_neq. clear - Hge. lia.
+    + intros o h. rewrite G. destruct (Nat.ltb_spec o (length (pp_ops pp))) as [Hlt|]; [|discriminate].
+      intros _ On. cbn in On. unfold init. cbn [s_fds]. rewrite nth_repeat_true. apply Nat.ltb_lt.
+      rewrite Forall_forall in Hops. specialize (Hops _ (nth_In _ d0 Hlt)). cbn beta in Hops. rewrite On in Hops. exact Hops.
+    + intros o. rewrite G. unfold owedk, init. cbn [s_k k_sqq k_inflight k_cq k_ovf].
+      rewrite count_sop_map, !(count_in_indices _ d0) by reflexivity. cbn [Nat.leb]. rewrite Nat.sub_0_r.
+      change (count_cop o []) with 0.
+      destruct (Nat.ltb_spec o (length (pp_ops pp))) as [Hlt|Hge].
+      * unfold expect, mk. cbn [o_st o_box]. destruct (nth o (pp_ops pp) d0) as [on [| | | |]]; reflexivity.
+      * rewrite nth_overflow by exact Hge. reflexivity.
+    + intros o. rewrite G. destruct (_ <? _); split; cbn; try discriminate.
+      intros _. split; [reflexivity|]. destruct (snd _); discriminate.
+    + intros h. unfold init. cbn [s_k k_sqq s_fds]. rewrite count_close_map_sop. destruct (nth h _ false); cbn; lia.
+    + intros h. unfold init. cbn [s_k k_sqq]. rewrite count_close_map_sop. lia.
+Qed.
+
+(** * What a successful replay says, in plain terms *)
+Inductive res :=
+  | RMap (x : mapping) | RFd | RBox (o : nat) | RReg (p : nat) | RPring (p : nat) | RPbufs (p : nat) | RDesc (h : nat).
+
+Definition mapping_eqb (x y : mapping) : bool :=
+  match x, y with MSq, MSq | MSqes, MSqes | MCq, MCq => true | _, _ => false end.
+
+Definition held (m : mon) (r : res) : bool :=
+  match r with
+  | RMap x => mapped m x
+  | RFd => m_fd m
+  | RBox o => nth o (m_box m) false
+  | RReg p => nth p (m_reg m) false
+  | RPring p => nth p (m_pring m) false
+  | RPbufs p => nth p (m_pbufs m) false
+  | RDesc h => nth h (m_desc m) false
+  end.
+
+(** The event gives the resource up. *)
+Definition releases (e : lev) (r : res) : bool :=
+  match e, r with
+  | LMunmap x _, RMap y => mapping_eqb x y
+  | LCloseRing, RFd => true
+  | LFree (ABox o), RBox o' => o' =? o
+  | LFree (APoolRing p), RPring p' => p' =? p
+  | LFree (APoolBufs p), RPbufs p' => p' =? p
+  | LRegister (RUnregPbuf p), RReg p' => p' =? p
+  | LConsumed (SClose h), RDesc h' => h' =? h
+  | LSysClose h, RDesc h' => h' =? h
+  | _, _ => false
+  end.
+
+(** The event touches the resource (an access, a system call on the descriptor, or its release). *)
+Definition uses (e : lev) (r : res) : bool :=
+  releases e r ||
+  match e, r with
+  | LUse x, RMap y => mapping_eqb x y
+  | LEnter _ _, RFd => true
+  | LRegister _, RFd => true
+  | LUsePool p, RPring p' => p' =? p
+  | LUsePool p, RPbufs p' => p' =? p
+  | _, _ => false
+  end.
+
+(** The event may only happen once the resource is gone (close after the munmaps; pool memory
+    freed after the unregistration). *)
+Definition needs_released (e : lev) (r : res) : bool :=
+  match e, r with
+  | LCloseRing, RMap _ => true
+  | LFree (APoolRing p), RReg p' => p' =? p
+  | LFree (APoolBufs p), RReg p' => p' =? p
+  | _, _ => false
+  end.
+
+Lemma replay1_sound d m e m' r :
+  replay1 d m e = Some m' ->
+  (uses e r = true -> held m r = true) /\
+  (needs_released e r = true -> held m r = false) /\
+  held m' r = held m r && negb (releases e r).
+Proof.
+  intros H.
+  destruct e as [x|n g|[h|o|o]|[|p]|x len| |h|p|[o|p|p]]; cbn [replay1] in H;
+    repeat match type of H with
+    | (if ?c then _ else _) = Some _ => destruct c eqn:?; [|discriminate]
+    end;
+    inversion H; subst; clear H;
+    destruct r as [y| |o'|p'|p'|p'|h']; try destruct x; try destruct y;
+    cbn [uses releases needs_released held mapped unmap mapping_eqb orb andb negb
+         m_sq m_sqes m_cq m_fd m_box m_reg m_pring m_pbufs m_desc] in *;
+    rewrite ?nth_clr, ?andb_true_r, ?andb_false_r;
+    repeat match goal with
+    | H : _ && _ = true |- _ => apply andb_prop in H; destruct H
+    | H : negb _ = true |- _ => apply negb_true_iff in H
+    | H : _ || _ = false |- _ => apply orb_false_elim in H; destruct H
+    end;
+    repeat split; intros; try congruence; try reflexivity;
+    try (match goal with |- context [?a =? ?b] => destruct (Nat.eqb_spec a b); subst end; cbn; rewrite ?andb_true_r, ?andb_false_r; congruence).
+  all: try match goal with
+       | H : uses _ _ = true |- _ => unfold uses in H; cbn [releases orb mapping_eqb] in H
+       | H : needs_released _ _ = true |- _ => cbn [needs_released] in H
+       end;
+       rewrite ?orb_false_r in *; try discriminate; try (match goal with H : (_ =? _) = true |- _ => apply Nat.eqb_eq in H; subst end);
+       try congruence; try assumption.
+Qed.
+
+(** Balance: what was held is what was released plus what is still held — each resource is
+    released at most once, and exactly once if it was held and is not any more. *)
+Lemma replay_balance d l : forall m m' r,
+  replay d m l = Some m' ->
+  b2n (held m r) = count_if (fun e => releases e r) l + b2n (held m' r).
+Proof.
+  induction l as [|e l IH]; intros m m' r H; cbn [replay] in H.
+  - inversion H; subst. reflexivity.
+  - destruct (replay1 d m e) as [m1|] eqn:E; [|discriminate].
+    destruct (replay1_sound d m e m1 r E) as (U & _ & S).
+    rewrite count_if_cons, <- Nat.add_assoc, <- (IH m1 m' r H), S.
+    destruct (releases e r) eqn:Rl; cbn [negb b2n].
+    + rewrite U by (unfold uses; rewrite Rl; reflexivity). reflexivity.
+    + rewrite andb_true_r. reflexivity.
+Qed.
+
+(** Order: once a resource is not held, nothing in the rest of the log touches it. *)
+Lemma replay_gone d l : forall m m' r,
+  replay d m l = Some m' -> held m r = false -> forall e, In e l -> uses e r = false.
+Proof.
+  induction l as [|e l IH]; intros m m' r H G e0 HI; [destruct HI|]. cbn [replay] in H.
+  destruct (replay1 d m e) as [m1|] eqn:E; [|discriminate].
+  destruct (replay1_sound d m e m1 r E) as (U & _ & S).
+  destruct HI as [<-|HI].
+  - destruct (uses e r) eqn:Us; [|reflexivity]. rewrite (U eq_refl) in G. discriminate.
+  - apply (IH m1 m' r H); [|exact HI]. rewrite S, G. reflexivity.
+Qed.
+
+Lemma replay_split d l1 e l2 m m' :
+  replay d m (l1 ++ e :: l2) = Some m' ->
+  exists m1 m2, replay d m l1 = Some m1 /\ replay1 d m1 e = Some m2 /\ replay d m2 l2 = Some m'.
+Proof.
+  rewrite replay_app. destruct (replay d m l1) as [m1|]; [|discriminate]. cbn [replay].
+  destruct (replay1 d m1 e) as [m2|] eqn:E; [|discriminate]. intros H. exists m1, m2. auto.
+Qed.
+
+(** The statements of the property, read off a log that replays. *)
+Definition log_safe (d : dims) (l : list lev) : Prop :=
+  (* after a munmap: no access to that mapping and no second munmap; the length is the mapping's *)
+  (forall l1 x len l2, l = l1 ++ LMunmap x len :: l2 ->
+     len = len_of d x /\ ~ In (LUse x) l2 /\ forall len', ~ In (LMunmap x len') l2) /\
+  (* the ring descriptor is closed at most once, after all three munmaps (none follows) and after
+     the last enter / register on it *)
+  (forall l1 l2, l = l1 ++ LCloseRing :: l2 ->
+     ~ In LCloseRing l2 /\ (forall n g, ~ In (LEnter n g) l2) /\ (forall r, ~ In (LRegister r) l2) /\
+     (forall x len, ~ In (LMunmap x len) l2) /\ (forall x, ~ In (LUse x) l2)) /\
+  (* an allocation is freed at most once and a pool's memory is not used after it *)
+  (forall l1 a l2, l = l1 ++ LFree a :: l2 ->
+     ~ In (LFree a) l2 /\
+     match a with APoolRing p | APoolBufs p => ~ In (LUsePool p) l2 /\ ~ In (LRegister (RUnregPbuf p)) l2 | ABox _ => True end) /\
+  (* a descriptor is closed at most once, by the kernel or by close(2) *)
+  (forall l1 h l2, l = l1 ++ LConsumed (SClose h) :: l2 \/ l = l1 ++ LSysClose h :: l2 ->
+     ~ In (LConsumed (SClose h)) l2 /\ ~ In (LSysClose h) l2).
+
+Lemma mapping_eqb_refl x : mapping_eqb x x = true.
+Proof. destruct x; reflexivity. Qed.
+
+Lemma replay_after_release d m l1 e l2 m' r :
+  replay d m (l1 ++ e :: l2) = Some m' -> releases e r = true -> forall e2, In e2 l2 -> uses e2 r = false.
+Proof.
+  intros H Rl e2 I. apply replay_split in H. destruct H as (m1 & m2 & _ & E & H2).
+  destruct (replay1_sound d m1 e m2 r E) as (_ & _ & S). rewrite Rl, andb_false_r in S.
+  exact (replay_gone d l2 m2 m' r H2 S e2 I).
+Qed.
+
+Lemma replay_after_needs d m l1 e l2 m' r :
+  replay d m (l1 ++ e :: l2) = Some m' -> needs_released e r = true -> forall e2, In e2 l2 -> uses e2 r = false.
+Proof.
+  intros H Nr e2 I. apply replay_split in H. destruct H as (m1 & m2 & _ & E & H2).
+  destruct (replay1_sound d m1 e m2 r E) as (_ & N & S). rewrite (N Nr) in S. cbn in S.
+  exact (replay_gone d l2 m2 m' r H2 S e2 I).
+Qed.
+
+Ltac absurd_use H I r :=
+  let U := fresh "U" in
+  pose proof (H r) as U; specialize (U ltac:(cbn; rewrite ?Nat.eqb_refl, ?mapping_eqb_refl; reflexivity) _ I);
+  unfold uses in U; cbn in U; rewrite ?Nat.eqb_refl, ?mapping_eqb_refl, ?orb_true_r in U; discriminate U.
+
+Lemma replay_log_safe d m l m' : replay d m l = Some m' -> log_safe d l.
+Proof.
+  intros H. split; [|split; [|split]].
+  - intros l1 x len l2 ->. pose proof (fun r => replay_after_release d m l1 _ l2 m' r H) as A.
+    split; [|split].
+    + apply replay_split in H. destruct H as (m1 & m2 & _ & E & _). cbn [replay1] in E.
+      destruct (mapped m1 x && (len =? len_of d x)%N) eqn:C; [|discriminate].
+      apply andb_prop in C. destruct C as [_ C]. apply N.eqb_eq in C. exact C.
+    + intros I. absurd_use A I (RMap x).
+    + intros len' I. absurd_use A I (RMap x).
+  - intros l1 l2 ->. pose proof (fun r => replay_after_release d m l1 _ l2 m' r H) as A.
+    pose proof (fun r => replay_after_needs d m l1 _ l2 m' r H) as B.
+    split; [|split; [|split; [|split]]].
+    + intros I. absurd_use A I RFd.
+    + intros n g I. absurd_use A I RFd.
+    + intros r I. pose proof (A RFd eq_refl _ I) as U. unfold uses in U. destruct r; discriminate U.
+    + intros x len I. absurd_use B I (RMap x).
+    + intros x I. absurd_use B I (RMap x).
+  - intros l1 a l2 ->. pose proof (fun r => replay_after_release d m l1 _ l2 m' r H) as A.
+    pose proof (fun r => replay_after_needs d m l1 _ l2 m' r H) as B.
+    destruct a as [o|p|p]; split; auto.
+    + intros I. absurd_use A I (RBox o).
+    + intros I. absurd_use A I (RPring p).
+    + split; intros I; [absurd_use A I (RPring p)|absurd_use B I (RReg p)].
+    + intros I. absurd_use A I (RPbufs p).
+    + split; intros I; [absurd_use A I (RPbufs p)|absurd_use B I (RReg p)].
+  - intros l1 h l2 [-> | ->]; pose proof (fun r => replay_after_release d m l1 _ l2 m' r H) as A;
+      split; intros I; absurd_use A I (RDesc h).
+Qed.
+
+(** * Plain-terms corollaries *)
+Definition teardown_log_safe : Prop :=
+  forall s es, wf s -> borrows_ok step s es -> log_safe (s_d s) (snd (run step s es)).
+
+Theorem teardown_log_safe_holds : teardown_log_safe.
+Proof.
+  intros s es W B. destruct (teardown_memory_safe_holds s es W B) as [m R].
+  exact (replay_log_safe _ _ _ _ R).
+Qed.
+
+(** Exactly once: whatever the monitor held at the start and does not hold at the end was released
+    by exactly one event of the log (one munmap per mapping, one close of the ring descriptor, one
+    free per allocation, one unregistration per pool, one close per descriptor). *)
+Definition teardown_exactly_once : Prop :=
+  forall s es m, wf s -> replay (s_d s) (mon_of s) (snd (run step s es)) = Some m ->
+    forall r, held (mon_of s) r = true -> held m r = false ->
+      count_if (fun e => releases e r) (snd (run step s es)) = 1.
+
+Theorem teardown_exactly_once_holds : teardown_exactly_once.
+Proof.
+  intros s es m _ R r H0 H1. pose proof (replay_balance _ _ _ _ r R) as B. rewrite H0, H1 in B. cbn in B. lia.
+Qed.
+
+(** For populations: the invariant holds at the start. *)
+Definition teardown_of_populations : Prop :=
+  forall pp es, pop_ok pp -> borrows_ok step (init pp) es -> covers (init pp) es ->
+    exists m, replay (pp_d pp) (mon_of (init pp)) (snd (run step (init pp) es)) = Some m /\
+      log_safe (pp_d pp) (snd (run step (init pp) es)) /\
+      m_sq m = false /\ m_sqes m = false /\ m_cq m = false /\ m_fd m = false /\
+      (forall p, nth p (m_reg m) false = false /\ nth p (m_pring m) false = false /\ nth p (m_pbufs m) false = false) /\
+      (forall o, nth o (m_box m) false = true -> abandoned_ops_beyond_cq_capacity (init pp) es) /\
+      (forall h, nth h (m_desc m) false = true -> fd_dropped_after_ring step (init pp) es h).
+
+Theorem teardown_of_populations_holds : teardown_of_populations.
+Proof.
+  intros pp es Ok B C. pose proof (init_wf pp Ok) as W.
+  destruct (teardown_releases_everything_holds (init pp) es W eq_refl B C) as (m & R & Rest).
+  exists m. split; [exact R|]. split; [exact (replay_log_safe _ _ _ _ R)|exact Rest].
+Qed.
+
+(** * Deciding the hypotheses on concrete cases *)
+Definition ev_okb (s : state) (e : event) : bool :=
+  match e with
+  | Drop (OFd h) =>
+      forallb (fun x => negb (o_fut x && match o_on x with Some h' => h' =? h | None => false end)) (s_ops s)
+  | _ => true
+  end.
+
+Fixpoint borrows_okb (st : state -> event -> state * list lev) (s : state) (es : list event) : bool :=
+  match es with
+  | [] => true
+  | e :: r => ev_okb s e && borrows_okb st (fst (st s e)) r
+  end.
+
+Lemma ev_okb_ok s e : ev_okb s e = true -> ev_ok s e.
+Proof.
+  destruct e as [[|c|h|o|p|b]|o]; cbn; auto. intros H o F On.
+  rewrite forallb_forall in H. pose proof (get_op_lt _ _ F) as Ho.
+  specialize (H _ (nth_In _ dead_op Ho)). fold (get_op s o) in H. rewrite F, On, Nat.eqb_refl in H. discriminate.
+Qed.
+
+Lemma borrows_okb_ok st es : forall s, borrows_okb st s es = true -> borrows_ok st s es.
+Proof.
+  induction es as [|e es IH]; intros s H; cbn in *; auto.
+  apply andb_prop in H. destruct H as [A B]. split; [apply ev_okb_ok, A|apply IH, B].
+Qed.
+
+Definition obj_eqb (x y : obj) : bool :=
+  match x, y with
+  | ORing, ORing => true
+  | OClone a, OClone b | OFd a, OFd b | OOp a, OOp b | OPool a, OPool b | OBuf a, OBuf b => a =? b
+  | _, _ => false
+  end.
+
+Definition drops (x : obj) (es : list event) : bool :=
+  existsb (fun e => match e with Drop y => obj_eqb x y | _ => false end) es.
+
+Lemma drops_in x es : drops x es = true -> In (Drop x) es.
+Proof.
+  unfold drops. rewrite existsb_exists. intros (e & I & E). destruct e as [y|]; [|discriminate].
+  replace x with y; [exact I|].
+  destruct x, y; cbn in E; try discriminate; try reflexivity; apply Nat.eqb_eq in E; congruence.
+Qed.
+
+Definition all_upto (n : nat) (f : nat -> bool) : bool := forallb f (seq 0 n).
+
+Lemma all_upto_spec n f i : all_upto n f = true -> i < n -> f i = true.
+Proof. unfold all_upto. rewrite forallb_forall. intros H Hi. apply H. apply in_seq. lia. Qed.
+
+Definition coversb (s : state) (es : list event) : bool :=
+  (negb (s_ring s) || drops ORing es) &&
+  all_upto (length (s_clones s)) (fun c => negb (nth c (s_clones s) false) || drops (OClone c) es) &&
+  all_upto (length (s_fds s)) (fun h => negb (nth h (s_fds s) false) || drops (OFd h) es) &&
+  all_upto (length (s_ops s)) (fun o => negb (o_fut (get_op s o)) || drops (OOp o) es) &&
+  all_upto (length (s_pools s)) (fun p => negb (p_handle (get_pool s p)) || drops (OPool p) es) &&
+  all_upto (length (s_bufs s)) (fun b => negb (snd (nth b (s_bufs s) (0, false))) || drops (OBuf b) es).
+
+Lemma coversb_ok s es : coversb s es = true -> covers s es.
+Proof.
+  unfold coversb. intros H. repeat (apply andb_prop in H; destruct H as [H ?]).
+  repeat split.
+  - intros R. rewrite R in H. cbn in H. apply drops_in, H.
+  - intros c L. pose proof (all_upto_spec _ _ c H4 (nth_true_lt _ _ L)) as E. cbn beta in E. rewrite L in E. apply drops_in, E.
+  - intros h L. pose proof (all_upto_spec _ _ h H3 (nth_true_lt _ _ L)) as E. cbn beta in E. rewrite L in E. apply drops_in, E.
+  - intros o L. pose proof (all_upto_spec _ _ o H2 (get_op_lt _ _ L)) as E. cbn beta in E. rewrite L in E. apply drops_in, E.
+  - intros p L. assert (p < length (s_pools s)) as Hp.
+    { destruct (Nat.lt_ge_cases p (length (s_pools s))); auto. unfold get_pool in L. rewrite nth_overflow in L by lia. discriminate. }
+    pose proof (all_upto_spec _ _ p H1 Hp) as E. cbn beta in E. rewrite L in E. apply drops_in, E.
+  - intros b L. assert (b < length (s_bufs s)) as Hb.
+    { destruct (Nat.lt_ge_cases b (length (s_bufs s))); auto. rewrite nth_overflow in L by lia. discriminate. }
+    pose proof (all_upto_spec _ _ b H0 Hb) as E. cbn beta in E. rewrite L in E. apply drops_in, E.
+Qed.
+
+(** * Witnesses *)
+Definition dims22 : dims := {| d_sqn := 2; d_cqn := 2; d_len_sq := 8; d_len_sqes := 128; d_len_cq := 224 |}.
+
+(** H13: ring, then the fd. *)
+Definition pop_h13 : population :=
+  {| pp_d := dims22; pp_clones := 0; pp_fds := 1; pp_ops := []; pp_pools := 0; pp_bufs := [] |}.
+Definition order_h13 : list event := [Drop ORing; Drop (OFd 0)].
+
+Ltac decide_case :=
+  split; [split; repeat constructor|];
+  split; [apply coversb_ok; vm_compute; reflexivity|];
+  split; [apply borrows_okb_ok; vm_compute; reflexivity|].
+
+Lemma fd_dropped_after_ring_refuted :
+  exists pp es, pop_ok pp /\ covers (init pp) es /\ borrows_ok step (init pp) es /\
+    exists m, replay (pp_d pp) (mon_of (init pp)) (snd (run step (init pp) es)) = Some m /\
+              nth 0 (m_desc m) false = true.
+Proof.
+  exists pop_h13, order_h13. decide_case.
+  eexists. split; [vm_compute; reflexivity|reflexivity].
+Qed.
+
+(** H14: three reads in flight on one fd, abandoned, then the ring with a completion queue of 2. *)
+Definition pop_h14 : population :=
+  {| pp_d := dims22; pp_clones := 0; pp_fds := 1;
+     pp_ops := [(Some 0, IInflight); (Some 0, IInflight); (Some 0, IInflight)]; pp_pools := 0; pp_bufs := [] |}.
+Definition order_h14 : list event := [Drop (OOp 0); Drop (OOp 1); Drop (OOp 2); Drop (OFd 0); Drop ORing].
+(** ... or not abandoned before: the futures are dropped after the ring. *)
+Definition order_h14' : list event := [Drop ORing; Drop (OOp 0); Drop (OOp 1); Drop (OOp 2); Drop (OFd 0)].
+
+Lemma abandoned_ops_beyond_cq_capacity_refuted :
+  exists pp es, pop_ok pp /\ covers (init pp) es /\ borrows_ok step (init pp) es /\
+    exists m, replay (pp_d pp) (mon_of (init pp)) (snd (run step (init pp) es)) = Some m /\
+              nth 2 (m_box m) false = true /\ m_desc m = [false].
+Proof.
+  exists pop_h14, order_h14. decide_case.
+  eexists. split; [vm_compute; reflexivity|split; reflexivity].
+Qed.
+
+Lemma abandoned_ops_beyond_cq_capacity_refuted_live_futures :
+  exists pp es, pop_ok pp /\ covers (init pp) es /\ borrows_ok step (init pp) es /\
+    exists m, replay (pp_d pp) (mon_of (init pp)) (snd (run step (init pp) es)) = Some m /\
+              nth 2 (m_box m) false = true.
+Proof.
+  exists pop_h14, order_h14'. decide_case.
+  eexists. split; [vm_compute; reflexivity|reflexivity].
+Qed.
+
+(** The same population and order under the repaired drain: every state is freed. *)
+Example fixed_drain_frees_h14 :
+  exists m, replay dims22 (mon_of (init pop_h14)) (snd (run step_fixed (init pop_h14) order_h14)) = Some m /\
+            m_box m = [false; false; false] /\ m_desc m = [false] /\ m_fd m = false.
+Proof. eexists. split; [vm_compute; reflexivity|repeat split; reflexivity]. Qed.
+
+(** Non-vacuity: a population with every kind of object, an order the borrow checker accepts. *)
+Definition pop_all : population :=
+  {| pp_d := {| d_sqn := 4; d_cqn := 4; d_len_sq := 16; d_len_sqes := 256; d_len_cq := 256 |};
+     pp_clones := 1; pp_fds := 2;
+     pp_ops := [(Some 0, IInflight); (None, IQueued); (Some 1, INotStarted); (Some 1, IDone); (None, IFinished)];
+     pp_pools := 1; pp_bufs := [0; 0] |}.
+Definition order_all : list event :=
+  [Drop (OBuf 1); Drop (OOp 0); KComplete 0; Drop (OFd 0); Drop (OPool 0); Drop (OOp 3); Drop ORing;
+   Drop (OOp 1); Drop (OClone 0); Drop (OOp 2); Drop (OOp 4); Drop (OBuf 0); Drop (OFd 1)].
+
+Example hypotheses_satisfiable :
+  pop_ok pop_all /\ covers (init pop_all) order_all /\ borrows_ok step (init pop_all) order_all /\
+  exists m, replay (pp_d pop_all) (mon_of (init pop_all)) (snd (run step (init pop_all) order_all)) = Some m /\
+            m_fd m = false /\ m_box m = [false; false; false; false; false] /\ m_reg m = [false] /\
+            m_desc m = [false; true].
+Proof.
+  decide_case.
+  eexists. split; [vm_compute; reflexivity|repeat split; reflexivity].
+Qed.
